@@ -43,7 +43,9 @@ from runner import enc, Infra
 
 RULE = ('name: raw URLs assembled from scheme x userinfo x host x port x 0-5 path segments x query, segments drawn '
         'from a hostile alphabet (percent-encoded / . .. NUL backslash CR LF, invalid and truncated UTF-8 escapes, '
-        'very long names, non-ASCII, trailing dot/space, Windows-reserved characters), canonicalised by the real '
+        'very long names, non-ASCII, the compatibility characters whose NFKC/NFKD/casefold forms contain . / \\ : (computed from '
+        'the interpreter: U+2024 U+2025 U+2026 U+FF0E U+FF0F U+FF3C U+FE52 U+FE68 ... raw and percent-encoded), '
+        'trailing dot/space, Windows-reserved characters), canonicalised by the real '
         'URLInfo.parse, x every combination of os_type x nocontrol x ascii x case x max_length{None,0,1,7,8,9,16,40,255,-3} '
         'x use_dir x cut{None,0..3,10} x protocol x hostname x root; safe/cd: names from the same alphabet; '
         'Content-Disposition values from a header grammar with hostile names; history: call sequences with different '
@@ -63,7 +65,8 @@ ASSUMPTIONS = ['a PathNamer constructed directly gets os_type "unix" or "windows
                '(options_os_known over the model of FileWriterSetupTask, tied by the argv stream)',
                'the index name (--default-page) is not empty',
                'str.lower()/str.upper() map a non-ASCII code point to a non-empty string of non-ASCII code points '
-               'and ASCII letters (checked exhaustively over all 0x110000 code points on every run); strings whose '
+               'and ASCII letters (checked exhaustively over all 0x110000 code points on every run, for str.lower/upper and '
+               'through the real safe_filename per single character: BMP + compatibility characters quick, all code points thorough); strings whose '
                'lowering is context dependent (final sigma) are excluded from the correspondence, not from the oracle',
                '"control character" is read as the C0 range 0..31 (what the code and DESIGN.md test); DEL and the '
                'C1 range are not escaped when ascii is off',
@@ -347,6 +350,43 @@ def oracle_applies(cfg):
 
 
 # ------------------------------------------------------------------ generators
+def _compat_chars():
+    """Every code point whose compatibility decomposition (of itself or of its case-folded form) contains
+    one of . / \\ : or a C0 control: a normalisation or folding step placed AFTER the sanitiser would turn
+    them into dot names or separators.  Computed from the interpreter's tables (42 code points in Unicode 15)."""
+    import unicodedata
+    danger = set('./\\:') | {chr(i) for i in range(32)}
+    out = []
+    for c in range(128, 0x110000):
+        if 0xD800 <= c <= 0xDFFF:
+            continue
+        ch = chr(c)
+        forms = unicodedata.normalize('NFKD', ch) + unicodedata.normalize('NFKD', ch.casefold())
+        if danger.intersection(forms):
+            out.append((ch, unicodedata.normalize('NFKD', ch)))
+    return out
+
+
+COMPAT = _compat_chars()
+COMPAT_DOTS = [ch for ch, f in COMPAT if f and set(f) == {'.'}]            # map to ".", "..", "..."
+COMPAT_SEPS = [ch for ch, f in COMPAT if '/' in f or '\\' in f]
+LOOKALIKE = ['\u2215', '\u2044', '\u29f8', '\u2216', '\uff61', '\u3002', '\u0589', '\ua789']   # not mapped by NFKC, still hostile-looking
+COMPAT_NAMES = ([ch for ch, _ in COMPAT] + LOOKALIKE
+                + [a + b for a in COMPAT_DOTS for b in COMPAT_DOTS]
+                + [a + '.' for a in COMPAT_DOTS] + ['.' + a for a in COMPAT_DOTS]
+                + [d + sep + d + sep + 'etc' + sep + 'passwd' for d in COMPAT_DOTS[:3] for sep in COMPAT_SEPS]
+                + ['x' + sep + '..' + sep + 'y' for sep in COMPAT_SEPS] + [sep + 'etc' for sep in COMPAT_SEPS]
+                + [d.upper() + 'A' for d in COMPAT_DOTS[:2]] + ['\ufb01le', '\uff21\uff0e\uff22', '\u2100\u2105'])
+
+
+def gen_compat_name(rng):
+    r = rng.random()
+    if r < 0.6:
+        return rng.choice(COMPAT_NAMES)
+    return ''.join(rng.choice([rng.choice(COMPAT)[0], rng.choice(COMPAT_DOTS), rng.choice(COMPAT_SEPS), 'a', 'Z', '.', 'é'])
+                   for _ in range(rng.choice([1, 2, 3, 5])))
+
+
 SEGS = ['a', 'b.txt', 'index.html', 'Dir', 'IMG.PNG', '%2F', '%2f', '%2E', '%2e%2e', '%2E%2E', '.', '..', '...',
         '%2E.', '.%2E', '%00', 'a%00b', '%5C', '\\', '%5c..%5c', '..%2F..%2Fetc%2Fpasswd', '%2Fetc%2Fpasswd',
         '..%5C..%5Cx', '%2F%2F', 'é', '日本', '%C3%A9', '%FF', '%E0%80', '%ED%A0%80', '%F0%9F%98%80', '%F0%90',
@@ -370,6 +410,9 @@ QUERIES = ['', '', '', '?', '?a=b', '?x=/', '?../..', '?a=%2F&b=..', '?q=é', '?
 
 
 def gen_seg(rng):
+    if rng.random() < 0.12:
+        name = gen_compat_name(rng)
+        return name if rng.random() < 0.4 else urllib.parse.quote(name, safe='')
     r = rng.random()
     if r < 0.7:
         return rng.choice(SEGS)
@@ -411,6 +454,8 @@ def gen_raw_url(rng):
 
 
 def gen_name(rng):
+    if rng.random() < 0.12:
+        return gen_compat_name(rng)
     r = rng.random()
     if r < 0.5:
         s = urllib.parse.unquote(gen_seg(rng))
@@ -786,7 +831,7 @@ def gen_writer_case(rng):
 
 
 # ------------------------------------------------------------------ stream: history (order of use inside one process)
-HIST_NAMES = ['a\x00b', 'nl\nx', 'esc\x1b[31m.txt', 'tab\there', 'bell\x07', '\x1f', 'a/b', '../x', '/etc/passwd',
+HIST_NAMES = COMPAT_NAMES[:12] + COMPAT_DOTS + COMPAT_SEPS + ['a\x00b', 'nl\nx', 'esc\x1b[31m.txt', 'tab\there', 'bell\x07', '\x1f', 'a/b', '../x', '/etc/passwd',
               'é\x01', 'A\\b:c', 'plain.txt', '..', '.', 'Ünï/\x0b', 'x' * 30 + '\x00/', '\x7f\x85']
 
 
@@ -974,7 +1019,9 @@ def replay_urlcache(ctx, real, calls):
 
 # ------------------------------------------------------------------ stream: argv (the writer as the application builds it)
 MODES = ['windows', 'unix', 'lower', 'upper', 'ascii', 'nocontrol']
-ARGV_FTP = ['ftp://example.com/pub/a%2F..%2F..%2F..%2Fx', 'ftp://example.com/%2E%2E%2F%2E%2E%2Fetc%2Fpasswd',
+ARGV_FTP = ['ftp://example.com/pub/%E2%80%A5/%E2%80%A5/etc/passwd', 'ftp://example.com/pub/%EF%BC%8E%EF%BC%8E/x',
+            'ftp://example.com/pub/x%EF%BC%8F..%EF%BC%8F..%EF%BC%8Fy', 'ftp://example.com/%E2%80%A4/%EF%B8%B0/f',
+            'ftp://example.com/pub/a%2F..%2F..%2F..%2Fx', 'ftp://example.com/%2E%2E%2F%2E%2E%2Fetc%2Fpasswd',
             'ftp://example.com/pub/%2Fabs', 'ftp://example.com/d%2F/f%00', 'ftp://example.com/pub/nl%0Aesc%1B',
             'ftp://example.com/pub/%2E%2E/x', 'ftp://example.com/a/b%5C..%5Cc', 'ftp://example.com/A/B%2fC/']
 ARGV_HTTP = ['http://example.com/a/b.txt', 'http://example.com/', 'https://example.com/d/e?q=/../x', 'http://example.com/A/%2E%2E/b']
@@ -1119,6 +1166,9 @@ def argv_cases(rng, n_random):
                 ms = [sub]
             cases.append(mk(ms, dirs, '<ROOT>', rng.choice(ARGV_FTP)))
             cases.append(mk(ms, dirs + ['--content-disposition'], '<ROOT>', rng.choice(ARGV_HTTP), rng.choice(ARGV_HEADERS)))
+    for ms in (['lower'], ['upper'], ['lower', 'nocontrol'], ['windows', 'lower'], ['unix', 'upper']):
+        for u in ARGV_FTP[:4]:
+            cases.append(mk([ms], ['-x'], '<ROOT>', u))
     cases.append(mk([['ascii', 'ascii']], [], '<ROOT>', ARGV_FTP[0]))
     cases.append(mk([['windows'], ['lower']], ['-x'], '<ROOT>', ARGV_FTP[0]))        # the last occurrence replaces the first
     cases.append(mk([['nocontrol'], ['unix', 'upper']], ['-x'], '<ROOT>', ARGV_FTP[4]))
@@ -1166,6 +1216,37 @@ def stream_argv(ctx, real, cases):
             ctx.disagree('argv', case, rep, realtok)
     if cases:
         ctx.sample(cases[0])
+
+
+# ------------------------------------------------------------------ oracle: the fold step of the real code, per code point
+def stream_foldtable(ctx, real, thorough):
+    """The theorems assume (TableSane) that case folding maps a non-ASCII code point to a non-empty string of
+    non-ASCII code points and ASCII letters.  check_case_tables() checks that for the interpreter's
+    str.lower / str.upper; this checks it for what the REAL safe_filename does to every single non-ASCII
+    character when it is kept (ascii off): all of the BMP + every compatibility character in the quick tier,
+    every code point in the thorough tier."""
+    letters = set(range(65, 91)) | set(range(97, 123))
+    points = list(range(128, 0x10000)) + [ord(ch) for ch, _ in COMPAT if ord(ch) >= 0x10000]
+    points += list(range(0x10000, 0x110000, 1 if thorough else 11))
+    n = 0
+    for case in ('lower', 'upper'):
+        cfg = {'os_type': 'unix', 'no_control': True, 'ascii_only': False, 'case': case, 'max_length': None}
+        kw = safe_kw(cfg)
+        for c in points:
+            if 0xD800 <= c <= 0xDFFF:
+                continue
+            n += 1
+            out = real.orig_safe(chr(c), **kw)
+            if not out or any(ord(x) < 128 and ord(x) not in letters for x in out):
+                ctx.case(('foldtable', case, c), tags=['foldtable'])
+                ctx.fail('unsafe-component', 'safe_filename',
+                         {'stream': 'safe', 'cfg': cfg, 'name': chr(c)},
+                         'safe_filename(U+%04X, case=%s) = %r: %s' % (c, case, out, component_problem(out, cfg)
+                                                                      or 'ASCII non-letter produced from a non-ASCII character'))
+                return
+    ctx.evaluations += n
+    ctx.tag('foldtable', n)
+    ctx.note('fold_table_real_code', '%d single non-ASCII characters x lower/upper through the real safe_filename' % n)
 
 
 # ------------------------------------------------------------------ entry points
@@ -1216,7 +1297,9 @@ def replay(ctx, case, kind=None, where=None):
         raise Infra('unknown replay stream %r' % s)
 
 
-FIXED_URLS = ['http://example.com/', 'http://example.com/a/b', 'http://example.com/a/b/', 'http://example.com/?q',
+FIXED_URLS = ['ftp://example.com/pub/%E2%80%A5/%E2%80%A5/etc/passwd', 'ftp://example.com/%EF%BC%8E%EF%BC%8E/%EF%BC%8F/x',
+              'ftp://h/\u2025/\uff0e\uff0e/\u2024', 'ftp://h/a\uff0f..\uff0fb', 'ftp://h/%E2%80%A4%E2%80%A4/%EF%B9%92',
+              'http://example.com/', 'http://example.com/a/b', 'http://example.com/a/b/', 'http://example.com/?q',
               'ftp://h/', 'ftp://h/a%2Fb/%2E%2E/c%00', 'ftp://h/%2E%2E/%2E%2E/etc/passwd', 'ftp://h/%2e%2e%2f%2e%2e%2fx',
               'ftp://h/..%2F..%2Fx', 'ftp://h/%2F%2Fetc/%2Fpasswd', 'ftp://h/a/%2E', 'ftp://h/a/%2E/', 'ftp://h/%00',
               'ftp://h/%5C..%5C', 'http://h/a./b', 'http://h/a.', 'ftp://h/a%20', 'ftp://h/%FF%E0%80/x%', 'http://h/' + 'a' * 400,
@@ -1237,6 +1320,8 @@ def run(ctx):
     stream_history(ctx, real, history_sequences(ctx.subrng('history'), ctx.scale(400, 8000)))
     stream_urlcache(ctx, real, ctx.subrng('urlcache'), ctx.scale(300, 5000))
 
+    stream_foldtable(ctx, real, thorough)
+
     # the writer built by the application from argv (option glue)
     stream_argv(ctx, real, argv_cases(ctx.subrng('argv'), ctx.scale(1500, 12000)))
 
@@ -1253,6 +1338,7 @@ def run(ctx):
     # safe_filename: every configuration on fixed hostile names + random
     fixed = ['', '.', '..', '...', '/', '//', 'a/b', '../x', '\\', 'a\\b', '\x00', 'a\x00', ' ', 'a ', 'a.', '. ', 'é',
              'a' * 300, 'é' * 200, '/' * 100, 'Σ', 'AΣ', 'ß', 'K', '\udc80', 'CON', 'a:b', '\x1f', '\x7f', '\x85', '%2E%2E']
+    fixed += COMPAT_NAMES
     cases = [(cfg, n) for cfg in all_safe_cfgs() for n in fixed]
     cases += [(gen_safe_cfg(rng, other=True), gen_name(rng)) for _ in range(ctx.scale(15000, 250000))]
     rng.shuffle(cases)      # the correspondence is compared after a randomised history of other calls
